@@ -434,7 +434,11 @@ class _X86_64(ABI):
 
         # TODO: If align_stack was set too, we're going to end up doing
         #       some redundant work.
-        if register_use.clobbered_registers or constraints.clobbers_flags:
+        if (
+            register_use.clobbered_registers
+            or constraints.clobbers_flags
+            or constraints.align_stack
+        ):
             rz_size = self.red_zone_size()
             if rz_size and is_leaf_function:
                 prologue.append(_AsmSnippet(f"leaq -{rz_size}(%rsp), %rsp"))
